@@ -222,6 +222,7 @@ class FunctionDecoratorManager(DecoratorManager):
         """Initialize the function decorator manager."""
         super().__init__(ast_ctx, f"{ast_ctx.get_global_ctx_name()}.{eval_func_var.get_name()}")
         self.eval_func: EvalFunc = eval_func_var.func
+        self._dispatch_lock = asyncio.Lock()
 
         self.logger = self.eval_func.logger
 
@@ -272,12 +273,15 @@ class FunctionDecoratorManager(DecoratorManager):
         _LOGGER.debug("Dispatching for %s: %s", self.name, data)
 
         decorators = self.get_decorators(TriggerHandlerDecorator)
-        for dec in decorators:
-            if await dec.handle_dispatch(data) is False:
-                self.logger.debug("Trigger not active due to %s", dec)
-                return
-        for dec in decorators:
-            dec.dispatch_accepted(data)
+        # every occurrence is dispatched in a task of its own and a guard may suspend: the guards are
+        # asked, and the acceptance is recorded (hold_off), for one occurrence at a time
+        async with self._dispatch_lock:
+            for dec in decorators:
+                if await dec.handle_dispatch(data) is False:
+                    self.logger.debug("Trigger not active due to %s", dec)
+                    return
+            for dec in decorators:
+                dec.dispatch_accepted(data)
 
         action_ast_ctx = AstEval(
             f"{self.eval_func.global_ctx_name}.{self.eval_func.name}", self.eval_func.global_ctx
